@@ -121,7 +121,7 @@ def cost_case(draw, classes=("E", "E", "F"), shapes=("tiny", "tiny", "tiny", "sm
 def e2e_config(draw, front=("single", "single", "joint"), max_N=3, max_W=4, max_K=4, t_range=(30, 120),
                limits=(1, 2, 3, 5, 5, 30, 30), betas=(0.0, 1.0, 10.0, 100.0, 1000.0), lam_forms=("scalar", "scalar", "const_matrix", "random_matrix"),
                beta_forms=("scalar", "scalar", "scalar", "vector"), eps_values=(0,), allow_degenerate=False, scales=False,
-               max_series=6, procs=(1,), allow_short=False, offsets=()):
+               max_series=6, procs=(1,), allow_short=False, offsets=(), scale_prob=1.0, m_large=False):
     fr = draw(st.sampled_from(list(front)))
     N = draw(st.integers(1, max_N))
     W = draw(st.integers(1, max_W))
@@ -160,6 +160,7 @@ def e2e_config(draw, front=("single", "single", "joint"), max_N=3, max_W=4, max_
         "outliers": draw(st.sampled_from([0, 0, 0, 1, 1, 2, 3])),
         "reuse_buffers": draw(st.booleans()),
         "prior_calls_on_same_arrays": draw(st.booleans()),
+        "series_as_views": draw(st.sampled_from([False, False, True])),
     }
     if cfg["beta_form"] == "vector" and draw(st.booleans()):
         cfg["beta_vector_seed"] = draw(st.integers(0, 2 ** 16))
@@ -168,7 +169,9 @@ def e2e_config(draw, front=("single", "single", "joint"), max_N=3, max_W=4, max_
         cfg.pop("beta_vector_seed", None)
     if offsets:
         cfg["data_offset"] = draw(st.sampled_from(list(offsets)))
-    if scales:
+    if m_large and draw(st.integers(0, 5)) == 0:
+        cfg["m"] = draw(st.sampled_from([20, 30, 40, 55]))      # large refills: thresholds derived from min_cluster_size show here
+    if scales and (scale_prob >= 1.0 or draw(st.floats(0, 1)) < scale_prob):
         cfg["sensor_scales"] = [10.0 ** draw(st.integers(-6, 6)) for _ in range(N)]
     if allow_degenerate:
         if draw(st.integers(0, 3)) == 0:
@@ -209,4 +212,20 @@ def e2e_oscillating_config(draw):
         "lam": draw(st.sampled_from([0.11, 0.5])), "lam_form": "scalar", "limit": draw(st.sampled_from([8, 12, 30])),
         "m": draw(st.integers(3, 6)), "biased": draw(st.booleans()), "eps": 0, "num_processors": 1,
         "boundary_regime_flip": False, "outliers": draw(st.sampled_from([0, 1, 2])), "reuse_buffers": False,
+    }
+
+
+@st.composite
+def e2e_tiny_cluster_large_m_config(draw):
+    """Runs in which some cluster tends to hold only a handful of windows (a short excursion in the data) while
+    min_cluster_size is large: thresholds derived from min_cluster_size instead of the fixed 'fewer than 2 points' show here."""
+    K = draw(st.integers(2, 3))
+    return {
+        "front": "single", "N": 1, "W": 1, "K": K + 1, "lengths": [draw(st.integers(130, 220))], "regimes": K,
+        "mean_spread": draw(st.sampled_from([2.0, 4.0])), "data_seed": draw(st.integers(0, 2 ** 31 - 1)),
+        "np_seed": draw(st.integers(0, 2 ** 31 - 1)), "py_seed": draw(st.integers(0, 2 ** 31 - 1)),
+        "beta": draw(st.sampled_from([0.0, 0.5, 2.0])), "beta_form": "scalar", "lam": 0.11, "lam_form": "scalar",
+        "limit": draw(st.sampled_from([3, 5, 8])), "m": draw(st.sampled_from([30, 40, 50])), "biased": draw(st.booleans()), "eps": 0,
+        "num_processors": 1, "boundary_regime_flip": False, "outliers": 0, "excursion": draw(st.integers(2, 5)),
+        "reuse_buffers": False,
     }
